@@ -97,7 +97,7 @@ CHECKS["C07"] = ("exploration",
    "results compared through Debug renderings; trusted base: the reference encoders",
    "DESIGN.md §7 C07")
 CHECKS["C06"] = ("fault_enumeration",
-   "runtime monitoring: structure-aware fault enumeration driven through every reader API under panic / arithmetic-overflow / allocation-bound / CPU-watchdog monitors, with process deaths attributed by a supervisor",
-   "Every repository fixture and one generated feature-complete workbook per format is faulted one structural item at a time (zip parts, XML attributes / text / tags with hostile values, BIFF and XLSB records truncated to every short length, length fields, 16/32-bit fields, CONTINUE splices, formula bytes, compound-file header / FAT / mini-FAT / directory fields, truncations, MS-OVBA containers and dir-stream records); thorough adds random byte edits on top. Each faulted file is opened by its reader and through auto-detection and every read API of the property is called; a counting global allocator, a panic hook with overflow checks and debug assertions on, and a CPU watchdog decide. Deaths of a worker process (refused allocation, watchdog, signal) are attributed to the announced case.",
+   "runtime monitoring: structure-aware fault enumeration driven through every reader API under panic / arithmetic-overflow / allocation-bound / CPU-watchdog monitors, with process deaths attributed by a supervisor; thorough adds Miri and AddressSanitizer runs of the same workload",
+   "Every repository fixture and one generated feature-complete workbook per format is faulted one structural item at a time (zip parts, XML attributes / text / tags with hostile values, BIFF and XLSB records truncated to every short length, length fields, 16/32-bit fields, CONTINUE splices, formula bytes, compound-file header / FAT / mini-FAT / directory fields, truncations, MS-OVBA containers and dir-stream records); thorough adds random byte edits on top. Each faulted file is opened by its reader and through auto-detection and every read API of the property is called; a counting global allocator, a panic hook with overflow checks and debug assertions on, and a CPU watchdog decide. Deaths of a worker process (refused allocation, watchdog, signal) are attributed to the announced case. The thorough command additionally runs the sanitizer stage (scripts/c06_sanitizers.sh): about 1150 faulted tiny containers interpreted by Miri (16 processes), and the whole quick corpus re-run by an AddressSanitizer build; their counts are merged into the evidence file (coverage.sanitizers).",
    "memory / time 'in proportion to the input' is restated as explicit budgets (96 MiB + 64 x input bytes per call; 10 s / 30 s CPU per call); the enumerated single-fault space plus random multi-faults stands for 'every byte sequence'; far-cell values (dense-range blow-up, an open known finding) are driven only on the generated bases and two fixtures per format",
    "DESIGN.md §7 C06")
